@@ -73,6 +73,9 @@ type FuncVC struct {
 	visits        map[*ssa.BasicBlock]int
 	nFeas, pruned int
 	curBinds      []Val
+	step          *stepCtx
+	curInstr      ssa.Instruction
+	storeOrd      map[ssa.Instruction]int
 }
 
 func (vc *FuncVC) addTrivial(name string) { vc.trivial[name]++ }
@@ -378,6 +381,19 @@ func VerifyFunc(g *Gen, fn *ssa.Function, con *Contract, maxPaths int) *FuncVC {
 			vc.errs = append(vc.errs, vc.name+": "+err.Error())
 		}
 	}
+	if con.Mode == "step" {
+		vc.setupStep()
+		if vc.step != nil {
+			st.step = &stepState{prev: map[string]string{}, held: map[string]bool{}}
+			for _, c := range vc.step.spec.Invs {
+				if t, err := env.Bool(c.E); err == nil {
+					st.assume(t)
+				} else {
+					vc.errs = append(vc.errs, fmt.Sprintf("inv %s: %v", c.Label, err))
+				}
+			}
+		}
+	}
 	vc.assumeClauses(st, env, con.Requires, "requires")
 	vc.assumeClauses(st, env, con.Assumes, "assume")
 	for _, a := range con.Assumes {
@@ -548,6 +564,7 @@ func (vc *FuncVC) explore(st *State, b *ssa.BasicBlock, idx int, prev *ssa.Basic
 			if top && len(vc.con.AtCall) > 0 {
 				vc.atCall(st, x)
 			}
+			vc.curInstr = in
 			res := vc.doCall(st, x)
 			for k, o := range res {
 				if o.st.dead {
@@ -631,6 +648,10 @@ func (vc *FuncVC) explore(st *State, b *ssa.BasicBlock, idx int, prev *ssa.Basic
 			st.execInstr(in)
 			if top {
 				vc.chanHooks(st, in)
+			}
+			if st.step != nil && st.step.pending != "" && st.dry == nil {
+				// a plain write to shared state is a step of its own
+				vc.stepCheck(st, fmt.Sprintf("%s.w%d", shortTail(ShortName(st.fr.fn)), vc.storeOrdinal(st.fr.fn, in)), st.step.prev)
 			}
 		}
 	}
@@ -789,6 +810,15 @@ func (vc *FuncVC) loopCut(st *State, li *loopInfo, prev *ssa.BasicBlock, phis []
 	}
 	env = st.specEnv(vc.pkg, vc.specVars(st))
 	vc.assumeClauses(st, env, ls.Invariants, kind+".invariant")
+	if vc.step != nil && st.step != nil {
+		// the global invariants hold between steps, hence at every loop head
+		for _, c := range vc.step.spec.Invs {
+			if t, err := env.Bool(c.E); err == nil {
+				st.assume(t)
+			}
+		}
+		st.step.touched = true
+	}
 	fg := vc.frameGoals(st, sortedKeys(li.writes))
 	for _, h := range sortedKeys(fg) {
 		st.assume(fg[h])
@@ -971,3 +1001,40 @@ func (vc *FuncVC) feasible(st *State) bool {
 }
 
 var pruneInfeasible = true
+
+// storeOrdinal: 1-based source-order position of a Store instruction within its function.
+func (vc *FuncVC) storeOrdinal(fn *ssa.Function, in ssa.Instruction) int {
+	if vc.storeOrd == nil {
+		vc.storeOrd = map[ssa.Instruction]int{}
+	}
+	if k, ok := vc.storeOrd[in]; ok {
+		return k
+	}
+	var stores []ssa.Instruction
+	for _, b := range fn.Blocks {
+		for _, i := range b.Instrs {
+			if _, ok := i.(*ssa.Store); ok {
+				stores = append(stores, i)
+			}
+		}
+	}
+	sort.SliceStable(stores, func(a, b int) bool { return stores[a].Pos() < stores[b].Pos() })
+	for k, s := range stores {
+		vc.storeOrd[s] = k + 1
+	}
+	return vc.storeOrd[in]
+}
+
+// renameObligations gives the obligations of a contract variant ("f@step") their own names.
+func (vc *FuncVC) renameObligations(name string) {
+	for _, o := range vc.obls {
+		o.Name = name + "#" + o.Kind
+		o.Func = name
+	}
+	triv := map[string]int{}
+	for k, v := range vc.trivial {
+		triv[k] = v
+	}
+	vc.trivial = triv
+	vc.name = name
+}
